@@ -56,6 +56,18 @@ type commitRes struct {
 }
 
 // commitFn is "diamond commit".
+// commitOpts are the listing options (page size, list concurrency) a commit reads the diamond's splits with; scenarios draw
+// them from the tape (drawCommitOpts) so that a split's done/running descriptor keys fall on either side of a page boundary
+var commitOpts []core.Option
+
+func drawCommitOpts(t *simkit.Tape) func() {
+	commitOpts = nil
+	if t.Bool(2, 3) {
+		commitOpts = []core.Option{core.BatchSize(t.Pick(1, 2, 3, 4, 5, 7, 8, 11, 1024)), core.ConcurrentList(t.Pick(1, 2, 8))}
+	}
+	return func() { commitOpts = nil }
+}
+
 func commitFn(stores context2.Stores, repo, diamondID string, mode model.ConflictMode, leaf uint32, out **core.Diamond) func() (interface{}, error) {
 	return func() (interface{}, error) {
 		dd, err := core.GetDiamond(repo, diamondID, stores, core.DiamondLogger(nopLog))
@@ -73,7 +85,7 @@ func commitFn(stores context2.Stores, repo, diamondID string, mode model.Conflic
 		if out != nil {
 			*out = d
 		}
-		err = d.Commit()
+		err = d.Commit(commitOpts...)
 		return commitRes{BundleID: d.BundleID, Desc: d.DiamondDescriptor}, err
 	}
 }
